@@ -314,7 +314,7 @@ func runScenario(t *testing.T, r *ev.Run, chk *checker, mainCh []*chain.Entry, c
 }
 
 func pollerHarness(t *testing.T, r *ev.Run, canons []*canon) {
-	maxLen := ev.Pick(r, 3, 5)
+	maxLen := ev.Pick(r, 3, 4)
 	mainCh := buildMain()
 	classes := map[felt.Felt]core.ClassDefinition{}
 	for s := uint64(0); s < 24; s++ {
